@@ -18,6 +18,7 @@ import PetgraphModel.Proofs.C06W3AsIs
 import PetgraphModel.Proofs.C06W3Abs
 import PetgraphModel.Proofs.C06W5Replay
 import PetgraphModel.Proofs.C06W5Abs
+import PetgraphModel.Proofs.C06W6Law
 /-
 C06 — every graph type and adaptor shows one consistent graph through the `visit` traits.
 
@@ -986,5 +987,25 @@ example : DenotesMG (abs (matrixTable d6State)) (Matrix.nodeRefs d6State)
   obtain ⟨s0, e, hh⟩ := C06_table_abs_MatrixGraph_all_histories true false 255 0 d6Ops
   rw [d6_init] at e; cases e
   exact hh d6_valid
+
+/-! ### wave 6: laws checked by the harness against the implementation itself
+
+`law …` protocol lines: the iterator laws (`harness/src/iterlaws.rs`: `size_hint`, `count`, `last`, `nth`, `skip`,
+`step_by`, `fold`, `rev`/`next_back`/`nth_back`/`rfold`, `len`; fresh and mid-iteration; the items compared INCLUDING
+`EdgeRef::id()`) on every trait-level iterator (`node_identifiers`, `node_references`, `edge_references`, `neighbors`,
+`neighbors_directed`, `edges`, `edges_directed`) of every base table dump and every adaptor stack whose iterator type is
+`Clone`, on the inherent iterators of the base types, and `clone_from`/`clone`/`Default`/`Debug` laws of the base types.
+The specification of these lines is the std `Iterator`/`Clone`/`Default` contract, decided in the harness (trusted);
+what is proved is that the driver cannot excuse a violation. -/
+
+/-- the judge of a `law` line answers `ok` exactly for the implementation answer `ok`: in every driver state, for every
+law name, a `VIOLATED …` answer is a SPECFAIL (there is no known-finding classifier on this path). -/
+theorem C06_law_judge (d : C06.DState) (what : List String) (impl : String) :
+    C06.stepLaw d what impl = "ok" ↔ impl = "ok" :=
+  C06W6.stepLaw_ok_iff d what impl
+
+/-- non-vacuity: the violation the seeded `nth` override of `Csr::edges` produces is refused. -/
+example : C06.stepLaw {} ["view", "ref"] "VIOLATED edges at node 0: nth(1) = Some(\"0/0/1/3\"), stepping with next gives Some(\"1/0/1/3\")" ≠ "ok" := by
+  rw [Ne, C06_law_judge]; decide
 
 end PetgraphModel.C06T
